@@ -208,6 +208,26 @@ def latticeLikeB (g : Grid) (fixed : List Nat) (coord : Nat → V3) : Bool :=
     (!(junctionNbrs g j).isEmpty &&
       vsum ((junctionNbrs g j).map coord) == V3.smul ((junctionNbrs g j).length : Rat) (coord j)))
 
+/-! ### anchoring: every free junction is linked to the frame (hypothesis of the uniqueness theorem, decided per grid) -/
+
+/-- one round: the junctions already reached, plus those with a reached neighbour -/
+def reachStep (nbrs : Nat → List Nat) (n : Nat) (r : List Nat) : List Nat :=
+  (List.range n).filter (fun j => r.contains j || (nbrs j).any (fun t => r.contains t))
+
+/-- the junctions below `n` that reach a junction of `nonfree` in at most `k` links -/
+def reachSet (nbrs : Nat → List Nat) (n : Nat) (nonfree : List Nat) : Nat → List Nat
+  | 0 => nonfree
+  | k + 1 => reachStep nbrs n (reachSet nbrs n nonfree k)
+
+/-- every free inner junction reaches a boundary or fixed junction along `Junction.neighbours` links
+    (then the averaging equations have exactly one solution for given boundary / fixed positions) -/
+def anchoredB (g : Grid) (fixed : List Nat) : Bool :=
+  let inn := inner g
+  let nb := (List.range g.n).map (junctionNbrs g)
+  let nonfree := (List.range g.n).filter (fun i => !inn.contains i || fixed.contains i)
+  let r := reachSet (fun j => nb.getD j []) g.n nonfree g.n
+  inn.all (fun j => fixed.contains j || r.contains j)
+
 /-! ### line protocol -/
 
 /-- `a;b;c` of `[i,j,…]` lists -/
@@ -285,6 +305,19 @@ def handleLattice (args : List String) : Option String :=
       some (toString (latticeLikeB g fi (pget cs)))
   | _ => none
 
+/-- `c15.anchored kind cells n fixedIdx` → whether every free inner junction is linked to the frame -/
+def handleAnchored (args : List String) : Option String :=
+  match args with
+  | [k, cells, n, fixedIdx] => do
+      let kind ← kindOf? k
+      let cells ← parseCells? cells
+      let n ← parseNat? n
+      let fi ← parseNatList? fixedIdx
+      let g : Grid := ⟨kind, cells, n⟩
+      if !wellFormed g then some "reject" else
+      some (toString (anchoredB g fi))
+  | _ => none
+
 def parseOp? (s : String) : Option Op :=
   if s.startsWith "I" then (parseNatList? (s.drop 1).toString).map Op.fixIdx
   else if s.startsWith "P" then (parsePts? (s.drop 1).toString).map Op.fixPts
@@ -342,6 +375,7 @@ def handle (op : String) (args : List String) : Option String :=
   | "c15.hist" => handleHist args
   | "c15.sketch" => handleSketch args
   | "c15.lattice" => handleLattice args
+  | "c15.anchored" => handleAnchored args
   | "c15.topo" => handleTopo args
   | "c15.smooth" => handleSmooth args
   | _ => none
